@@ -1,1 +1,40 @@
-//! Kani harnesses compiled as a child module of rustzx-core/src/zx/controller.rs (cfg(kani) only).
+//! Kani-only child module of rustzx-core/src/zx/controller.rs (cfg(kani)).
+#![allow(dead_code)]
+use super::*;
+use crate::verif_hooks::{FbCtx, VHost};
+
+// ---- shared helpers (lead) --------------------------------------------------------------------
+
+pub(crate) fn mk_controller(machine: ZXMachine, ctx: FbCtx, kempston: bool, mouse: bool) -> ZXController<VHost> {
+    let mut s = crate::emulator::verif_hooks::mk_settings(machine);
+    s.kempston_enabled = kempston;
+    s.mouse_enabled = mouse;
+    ZXController::<VHost>::new(&s, ctx)
+}
+
+pub(crate) fn passed_frames(c: &ZXController<VHost>) -> usize {
+    c.passed_frames
+}
+pub(crate) fn set_passed_frames(c: &mut ZXController<VHost>, v: usize) {
+    c.passed_frames = v;
+}
+pub(crate) fn paging_enabled(c: &ZXController<VHost>) -> bool {
+    c.paging_enabled
+}
+pub(crate) fn set_paging_enabled(c: &mut ZXController<VHost>, v: bool) {
+    c.paging_enabled = v;
+}
+pub(crate) fn screen_bank(c: &ZXController<VHost>) -> u8 {
+    c.screen_bank
+}
+pub(crate) fn latch_7ffd(c: &ZXController<VHost>) -> u8 {
+    c.current_port_7ffd
+}
+pub(crate) fn events_bits(c: &ZXController<VHost>) -> u8 {
+    c.events.bits()
+}
+pub(crate) fn has_error(c: &ZXController<VHost>) -> bool {
+    c.last_emulation_error.is_some()
+}
+
+// ---- end shared helpers -----------------------------------------------------------------------
